@@ -521,10 +521,30 @@ fn m5(cfg: &Cfg, log: &mut Log) {
       };
       let stepped_hour = describe_hour(&h.next(k));
       let fresh_hour = describe_hour(&st_of_abs(day * 86400 + sod + 7200 * k as i64).get_lunar_hour());
-      ((a1, a2), (b1, b2), (c1, c2), d2 == d2w && stepped_day == fresh_day && stepped_hour == fresh_hour, (e1, e2, e3), (f1, f2, f3))
+      // relations between a value that has answered questions and a never-touched value of the same date:
+      // equal both ways, rendered alike, neither before nor after
+      let cold_day = sd_of_dn(day).get_lunar_day();
+      let cold_hour = LunarHour::from_ymd_hms(l.get_year(), l.get_month(), l.get_day(), (sod / 3600) as usize, ((sod % 3600) / 60) as usize, (sod % 60) as usize);
+      let rel = (
+        l == cold_day && cold_day == l && !(l != cold_day),
+        l.to_string() == cold_day.to_string(),
+        !l.is_before(cold_day.clone()) && !l.is_after(cold_day.clone()),
+        h == cold_hour && cold_hour == h && !(h != cold_hour),
+        h.to_string() == cold_hour.to_string(),
+        !h.is_before(cold_hour.clone()) && !h.is_after(cold_hour.clone()),
+        h.get_lunar_day() == cold_day && cold_hour.get_lunar_day() == l,
+        h.get_solar_time().get_lunar_hour() == h && h.next(k).next(-k) == h && cold_hour.next(k) == h.next(k),
+        l.next(k).next(-k) == l && cold_day.next(k) == l.next(k),
+        l.get_sixty_cycle_day() == sd_of_dn(day).get_sixty_cycle_day() && h.get_sixty_cycle_hour() == cold_hour.get_solar_time().get_sixty_cycle_hour(),
+      );
+      let rel_ok = rel == (true, true, true, true, true, true, true, true, true, true);
+      ((a1, a2), (b1, b2), (c1, c2), d2 == d2w && stepped_day == fresh_day && stepped_hour == fresh_hour, (e1, e2, e3), (f1, f2, f3), rel_ok, format!("{:?}", rel))
     });
     match r {
-      Ok((a, b, cc, d, e, f)) => {
+      Ok((a, b, cc, d, e, f, rel_ok, rel)) => {
+        if !rel_ok {
+          log.violate(format!("C10/memo-relations/{}", cal::fmt_dn(day)), "equality, rendering and order between a value that has answered questions and a never-touched one", cal::fmt_dn(day), rel, "all true: (day ==, day rendering, day neither before nor after, hour ==, hour rendering, hour order, day of hour, hour round trips, day round trips, sexagenary views ==)".into());
+        }
         if a != b || a != cc || !d || e != f {
           log.violate(format!("C10/memo/{}", cal::fmt_dn(day)), "per-value memos", cal::fmt_dn(day), format!("{:?} {:?} {:?} {} {:?} {:?}", a, b, cc, d, e, f), "identical answers in any call order, on clones taken before and after the first derived call, and after stepping from a value with filled memos".into());
         }
